@@ -14,6 +14,8 @@ CTORS = [
     ("new_reim_fftvec_addmul_precomp", "new_reim_fftvec_addmul_precomp(m)", 1),
     ("new_reim_from_znx64_precomp", "new_reim_from_znx64_precomp(m, 50)", 1),
     ("new_reim_to_znx64_precomp/50", "new_reim_to_znx64_precomp(m, 4.0, 50)", 1),
+    ("new_reim_to_znx64_precomp/51", "new_reim_to_znx64_precomp(m, 4.0, 51)", 1),
+    ("new_reim_to_znx64_precomp/52", "new_reim_to_znx64_precomp(m, 4.0, 52)", 1),
     ("new_reim_to_znx64_precomp/63", "new_reim_to_znx64_precomp(m, 4.0, 63)", 1),
     ("new_reim_to_tnx_precomp", "new_reim_to_tnx_precomp(m, 2.0, 18)", 1),
     ("new_cplx_fft_precomp", "new_cplx_fft_precomp(m, 0)", 1),
@@ -23,6 +25,7 @@ CTORS = [
     ("new_cplx_from_znx32_precomp", "new_cplx_from_znx32_precomp(m)", 1),
     ("new_cplx_from_tnx32_precomp", "new_cplx_from_tnx32_precomp(m)", 1),
     ("new_cplx_to_tnx32_precomp/18", "new_cplx_to_tnx32_precomp(m, 2.0, 18)", 1),
+    ("new_cplx_to_tnx32_precomp/19", "new_cplx_to_tnx32_precomp(m, 2.0, 19)", 1),
     ("new_reim4_from_cplx_precomp", "new_reim4_from_cplx_precomp(m)", 4),
     ("new_reim4_to_cplx_precomp", "new_reim4_to_cplx_precomp(m)", 4),
     ("new_reim4_fftvec_mul_precomp", "new_reim4_fftvec_mul_precomp(m)", 4),
